@@ -16,7 +16,7 @@ RULE = ("values: i64 boundaries, 0, negatives, integers above i64::MAX and above
         "numeric-looking / empty / non-ASCII / long strings, booleans, null, arrays, objects. Direct: both helpers along 6 serde "
         "routes each. Compiled: positions ID and ID! as plain fields, inside spread fragments (flatten), inside interface and "
         "union variants (internally tagged enums), on interfaces' common fields, aliased, under `normalization = rust`, with the "
-        "other-variant and skip-none options; String and Int fields as negative controls; absence at nullable IDs. List positions "
+        "other-variant, skip-none and custom-scalars-module options; String and Int fields as negative controls; absence at nullable IDs. List positions "
         "[ID!]!, [ID], [[ID!]], [ID!] as plain fields, inside a spread fragment and inside a variant, fed whole-list values "
         "(mixed strings / integers, null elements, nulls, absence, non-lists, floats, nested lists). Non-trivial = every (position, value) pair with a non-string value; distinct "
         "by (document, position, value)")
@@ -102,7 +102,7 @@ def list_cases(run):
     rng = run.rng
     s = id_schema(with_lists=True)
     out = []
-    for oi, opts in enumerate([{}, {"normalization": "rust", "other_variant": True, "skip_none": True}]):
+    for oi, opts in enumerate([{}, {"normalization": "rust", "other_variant": True, "skip_none": True, "custom_scalars_module": "AUTO"}]):
         c = C.make_case("l%d" % oi, s, LIST_DOC, rng, options=opts, fmt=["sdl", "json"][oi])
         vecs = [{"id": "base", "kind": "resp", "target": "Q3", "input": LIST_BASE, "expect": {"ok": True, "reser": LIST_BASE}, "label": "conforming"}]
         for pi, (path, table) in enumerate(LIST_VECTORS):
@@ -215,7 +215,8 @@ def compiled_cases(run):
     out = []
     s = id_schema()
     for di, (doc, base, positions) in enumerate(DOCS):
-        for oi, opts in enumerate([{}, {"normalization": "rust", "other_variant": True}, {"skip_none": True}] if di < 2 else [{}, {"deprecation": "allow"}, {"deprecation": "warn", "skip_none": True}]):
+        # custom_scalars_module redirects the schema's custom scalars only: ID is built in and keeps its coercion (C16-r10m1)
+        for oi, opts in enumerate([{}, {"normalization": "rust", "other_variant": True, "custom_scalars_module": "AUTO"}, {"skip_none": True}] if di < 2 else [{}, {"deprecation": "allow", "custom_scalars_module": "AUTO"}, {"deprecation": "warn", "skip_none": True}]):
             c = C.make_case("d%do%d" % (di, oi), s, doc, rng, options=opts, fmt=["sdl", "json", "sdl"][oi])
             if oi == 2:
                 # SDL that declares the built-in scalars explicitly (legal, and common in schema dumps)
